@@ -765,7 +765,7 @@ class Check:
                 topo = rnd.choice(["lan", "routed"])
                 pw = rnd.choice(["pw", "pw", "S3cret!", None])
                 ss = {"name": f"{spec['name']}-{k}", "topo": topo, "pw": pw, "bot_pw": rnd.choice([pw, pw, "stolen-wrong"]), "dur": rnd.choice([0, 0, 1]),
-                      "max_sessions": rnd.choice([2, 3, 3, 5]), "restart_d": rnd.choice([1, 2]), "fix_d": rnd.choice([1, 2])}
+                      "max_sessions": rnd.choice([2, 3, 3, 5]), "restart_d": rnd.choice([1, 2]), "fix_d": rnd.choice([0, 0, 1, 2, 3])}
                 ops = random_ops(rnd, spec["len"], topo)
                 one(ss, ops, {"rand_seed": spec["seed"], "k": k, **ss})
                 if len(out) >= 6:
